@@ -289,3 +289,58 @@ Lemma apply_spec_equiv : forall m1 m2 o, mwf m1 -> mwf m2 -> map_equiv m1 m2 ->
 Proof.
   intros m1 m2 o H1 H2 He p. rewrite !mget_apply by assumption. rewrite (He p). reflexivity.
 Qed.
+
+(* ------------------------------------------------------------------ interleavings *)
+Definition run_from (m : tmap) (ops : list op) : tmap := fold_left apply_spec ops m.
+
+Inductive interleave : list op -> list op -> list op -> Prop :=
+| il_nil : interleave [] [] []
+| il_left : forall x l1 l2 l, interleave l1 l2 l -> interleave (x :: l1) l2 (x :: l)
+| il_right : forall y l1 l2 l, interleave l1 l2 l -> interleave l1 (y :: l2) (y :: l).
+
+Lemma run_from_equiv : forall ops m1 m2, mwf m1 -> mwf m2 -> map_equiv m1 m2 ->
+  map_equiv (run_from m1 ops) (run_from m2 ops).
+Proof.
+  induction ops as [|o ops IH]; intros m1 m2 H1 H2 He; simpl; [exact He|].
+  apply IH; [apply mwf_apply; exact H1 | apply mwf_apply; exact H2 | apply apply_spec_equiv; assumption].
+Qed.
+
+Lemma run_from_app : forall l1 l2 m, run_from m (l1 ++ l2) = run_from (run_from m l1) l2.
+Proof. intros l1 l2 m. unfold run_from. apply fold_left_app. Qed.
+
+Lemma map_equiv_trans : forall m1 m2 m3, map_equiv m1 m2 -> map_equiv m2 m3 -> map_equiv m1 m3.
+Proof. intros m1 m2 m3 H1 H2 p. rewrite (H1 p). apply H2. Qed.
+
+(* an operation independent of a whole sequence may be moved behind it *)
+Lemma move_behind : forall l1 y m, mwf m -> (forall x, In x l1 -> independent x y) ->
+  map_equiv (run_from m (y :: l1)) (run_from m (l1 ++ [y])).
+Proof.
+  induction l1 as [|x l1 IH]; intros y m Hm Hi; [intros p; reflexivity|].
+  simpl app. change (run_from m (y :: x :: l1)) with (run_from (apply_spec (apply_spec m y) x) l1).
+  change (run_from m (x :: l1 ++ [y])) with (run_from (apply_spec m x) (l1 ++ [y])).
+  eapply map_equiv_trans.
+  - apply (run_from_equiv l1 _ (apply_spec (apply_spec m x) y)); try (apply mwf_apply; apply mwf_apply; exact Hm).
+    intros p. symmetry. apply (spec_commute m x y Hm). apply Hi. left. reflexivity.
+  - change (run_from (apply_spec (apply_spec m x) y) l1) with (run_from (apply_spec m x) (y :: l1)).
+    apply IH; [apply mwf_apply; exact Hm|]. intros x' Hx'. apply Hi. right. exact Hx'.
+Qed.
+
+(* two sequences whose operations are pairwise independent: every interleaving leaves the same
+   map as running one after the other *)
+Lemma interleave_equiv : forall l1 l2 l, interleave l1 l2 l ->
+  (forall x y, In x l1 -> In y l2 -> independent x y) ->
+  forall m, mwf m -> map_equiv (run_from m l) (run_from m (l1 ++ l2)).
+Proof.
+  intros l1 l2 l H. induction H as [|x l1 l2 l H IH | y l1 l2 l H IH]; intros Hi m Hm.
+  - intros p. reflexivity.
+  - simpl. apply IH; [|apply mwf_apply; exact Hm]. intros a b' Ha Hb. apply Hi; [right; exact Ha | exact Hb].
+  - change (run_from m (y :: l)) with (run_from (apply_spec m y) l).
+    eapply map_equiv_trans; [apply IH; [|apply mwf_apply; exact Hm]|].
+    + intros a b' Ha Hb. apply Hi; [exact Ha | right; exact Hb].
+    + change (run_from (apply_spec m y) (l1 ++ l2)) with (run_from m ((y :: l1) ++ l2)).
+      replace (l1 ++ y :: l2) with ((l1 ++ [y]) ++ l2) by (rewrite <- app_assoc; reflexivity).
+      rewrite (run_from_app (y :: l1) l2 m), (run_from_app (l1 ++ [y]) l2 m). apply run_from_equiv.
+      * apply (mwf_run_from (y :: l1)). exact Hm.
+      * apply (mwf_run_from (l1 ++ [y])). exact Hm.
+      * apply move_behind; [exact Hm|]. intros x Hx. apply Hi; [exact Hx | left; reflexivity].
+Qed.
